@@ -13,7 +13,7 @@ P2 creation records (constraints, variables, objectives, NL items);
 P3 lazily exported link entries are flushed before the file is closed.
 """
 import re, hashlib
-from ..cfg import loop_shape, norm_facts, xrender, expand_locals, reach_calls, Facts, kids, strip, walk, cv, render, call_args, call_object, switch_sections
+from ..cfg import MiniInt, call_object, loop_shape, norm_facts, xrender, expand_locals, reach_calls, Facts, kids, strip, walk, cv, render, call_args, call_object, switch_sections
 from ..cfg import short_loc as _short_loc
 from ..facts import export, export_many, AnalysisBroken
 
@@ -364,7 +364,8 @@ def run(rep, ctx):
           r"mp::FlatModel::(AddVar__basic|AddVars__basic|AddObjective|PushVariablesTo|PushModelTo|PushCustomConstraintsTo|PushObjectivesTo)",
           r"mp::FlatConverter::(CloseGraphExporter|OpenGraphExporter|FinishModelInput|StartModelInput)",
           r"mp::ProblemFlattener::(ConvertModel|ConvertStandardItems)",
-          r"mp::pre::ValuePresolverImpl::(Add|ExportRemainingEntries|FinishExportingLinkEntries|WriteNodes|GetExport)"]
+          r"mp::pre::ValuePresolverImpl::(Add|ExportRemainingEntries|FinishExportingLinkEntries|WriteNodes|GetExport)",
+          r"mp::pre::BasicStaticIndivEntryLink::FillEntryItems"]
     fn += [rx(q) for q in sorted(emit_qns)]
     jobs = [dict(unit=U, fn=fn, enum=[JW + "::Kind"], repo=repo),
             dict(unit="src/std_constr.cc", fn=[r"mp::WriteJSON", JW + r"::.*"], repo=repo),
@@ -1368,6 +1369,58 @@ def run(rep, ctx):
             ok = ok and not [c for c in er.cfg.facts_at(ex[0]) if c[0] in inner]
     p3.check(ok, "export-loop", short_loc(er.loc), "every entry [beg_, end_) of every not yet exported range is exported once, "
              "and i_exported_ advances past it")
+    # the items of a static link's record: position k of the entry goes with node k; sources are the first NSources positions,
+    # targets the rest (evaluated for each instantiation: the loops are run on the template's constants)
+    l2 = rep.rule("C20.L2", "TABLE", "a static link's record lists (node k, entry[k]) for every position k: sources [0, NSources), targets [NSources, NIndexes)", floor=1)
+    fe_ = [f for f in funcs if f.qn == "mp::pre::BasicStaticIndivEntryLink::FillEntryItems"]
+    if not fe_:
+        raise AnalysisBroken("C20.L2: no instantiation of BasicStaticIndivEntryLink::FillEntryItems")
+    seen_l2 = set()
+    for f in sorted(fe_, key=lambda g: g.full):
+        m_ = re.search(r", (\d+), (\d+), (\d+)>::FillEntryItems", f.full)
+        if not m_:
+            raise AnalysisBroken("C20.L2: template arguments of %s not readable" % f.full[:120])
+        nn_, ni_, ns_ = int(m_.group(1)), int(m_.group(2)), int(m_.group(3))
+        if (nn_, ni_, ns_) in seen_l2:
+            continue
+        seen_l2.add((nn_, ni_, ns_))
+        rec_ = {"src_items_": [], "dest_items_": []}
+        box = {}
+
+        def atom(t_, n_, env_):
+            if n_["k"] == "CXXMemberCallExpr":
+                nm_ = (n_.get("callee") or "").split("::")[-1]
+                ob_ = render(call_object(n_)).replace(" ", "") if call_object(n_) is not None else ""
+                which = next((w for w in rec_ if ob_.endswith(w)), None)
+                if which and nm_ in ("clear", "reserve"):
+                    if nm_ == "clear":
+                        rec_[which] = []
+                    return 0
+                if which and nm_ in ("push_back", "emplace_back"):
+                    ats = [x for a_ in call_args(n_) for x in walk(a_) if x["k"] == "CXXMemberCallExpr" and (x.get("callee") or "").split("::")[-1] in ("at", "operator[]")] + \
+                          [x for a_ in call_args(n_) for x in walk(a_) if x["k"] == "CXXOperatorCallExpr" and x.get("op") == "[]"]
+                    pr = {}
+                    for x in ats:
+                        if x["k"] == "CXXMemberCallExpr":
+                            o_, ix_ = render(call_object(x)).replace(" ", ""), call_args(x)[0]
+                        else:
+                            o_, ix_ = render(call_args(x)[0]).replace(" ", ""), call_args(x)[1]
+                        pr["node" if o_.endswith("ndl_") else "entry"] = box["mi"].expr(ix_, env_, 0)
+                    rec_[which].append((pr.get("node"), pr.get("entry")))
+                    return 0
+            return None
+        mi = MiniInt(F, atom)
+        box["mi"] = mi
+        try:
+            mi.call(f, [("obj", None, None), ("obj", None, None)])
+        except AnalysisBroken as e_:
+            if "without a return" not in str(e_):
+                raise AnalysisBroken("C20.L2: FillEntryItems: %s" % e_)
+        want_s, want_d = [(k, k) for k in range(ns_)], [(k, k) for k in range(ns_, ni_)]
+        l2.check(rec_["src_items_"] == want_s and rec_["dest_items_"] == want_d, "items|%d/%d" % (ns_, ni_), short_loc(f.loc),
+                 "%d source and %d target items, each (node k, entry[k])" % (ns_, ni_ - ns_),
+                 "with %d sources of %d positions the record lists sources %s and targets %s as (node, entry position): a record then names an item "
+                 "that the link does not connect (possibly one that does not exist)" % (ns_, ni_, rec_["src_items_"], rec_["dest_items_"]))
     fa = [f for f in funcs if f.qn == "mp::FileAppender__fstream::Append"]
     if fa:
         g = fa[0]
